@@ -43,6 +43,7 @@ func init() {
 			{ID: "C01-R16", Title: "hand-made indices into a parallel sequence advance on every path", Floor: 1, Run: counterAdvancedBeforeContinue},
 			{ID: "C01-R17", Title: "stores to resolved names test constness first", Floor: 4, Run: storesToResolvedNamesCheckConstness},
 			{ID: "C01-R18", Title: "computed messages are not used as format strings", Floor: 1, Run: messagesAreNotFormats},
+			{ID: "C01-R19", Title: "break leaves the loop and continue stays in it (patch targets)", Floor: 2, Run: loopExitTargets},
 		},
 	})
 }
